@@ -74,6 +74,19 @@ def run(tier, work):
             for (ef, p, _) in cs[b:b + B]:
                 ops += ["line u1 do me xcall3:fe:fe:%s:%s" % (ef, p.encode().hex() or "00"), "cycle"]
             scen.append(("%s-%d" % (pol, b), ops)); meta.append(pol)
+    # editor sessions: ed(path), then the editor commands a user types - write without a name, file-name change and write,
+    # write to another name, quit - under masters that answer differently for reading and writing
+    edpaths = ["/ok/edf", "ok/edf", "/ok/../ok/edf", "/../x", "/ro/f"]
+    for pol, setp in (("ro", "pol:read:allow;pol:write:deny"), ("allow", "pol:read:allow;pol:write:allow"), ("rw_ok", "pol:read:allow;pol:write:/ok/rw")):
+        ops = ["call master set_log #1", "backend", "connect u1", "cycle", "line u1 name u1", "cycle", "line u1 do me mk:fe:/obj/fe", "cycle",
+               "line u1 do me " + setp, "cycle", "fslog 1"]
+        for p in edpaths:
+            for cmds in (["w"], ["a", "text", ".", "w"], ["f /ok/other", "w"], ["w /ok/third"], ["a", "more", ".", "x"]):
+                ops += ["line u1 do me xcall3:fe:fe:ed:%s" % p.encode().hex(), "cycle"]
+                for c in cmds:
+                    ops += ["line u1 " + c, "cycle"]
+                ops += ["line u1 Q", "cycle", "line u1 do me xcall3:fe:fe:ed_end:00", "cycle"]
+        scen.append(("ed-%s" % pol, ops)); meta.append(pol if pol in POLICIES else "allow")
     # include / inherit batch (policy allow)
     for b in range(0, len(incs), 60):
         ops = ["call master set_log #1", "backend", "connect u1", "cycle", "line u1 name u1", "cycle", "line u1 do me mk:fe:/obj/fe", "cycle", "fslog 1"]
